@@ -98,6 +98,28 @@ def run(ctx):
         if m.shape != P.shape or m[0] != 0.0 or np.any(np.diff(m) <= 0) or not np.allclose(m, want, rtol=1e-12):
             bad("stand-alone table transform is not the (zero-based, strictly increasing) trapezoid integral of 2p/(mu z) over pressure",
                 dict(pressure=[float(x) for x in P], viscosity=[float(x) for x in mu], z=[float(x) for x in z]), [float(x) for x in m[:5]])
+        # the same table in another row order (listed from high to low pressure, or shuffled) and in other containers: the
+        # transform integrates along the rows as given, so every row keeps its value relative to the first row listed
+        if n >= 3:
+            import pandas as pd
+            for how in ("descending", "shuffled", "descending, pandas columns"):
+                perm = np.arange(n)[::-1] if how.startswith("desc") else rng.permutation(n) if how == "shuffled" else np.arange(n)
+                Pp, mup, zp = P[perm].copy(), mu[perm].copy(), z[perm].copy()
+                args = (pd.Series(Pp), pd.Series(mup), pd.Series(zp)) if "pandas" in how else (Pp, mup, zp)
+                try:
+                    mp = np.asarray(pseudopressure(*args), float)
+                except Exception as e:  # noqa: BLE001
+                    bad("stand-alone table transform fails on an admissible table", dict(rows=n, presentation=how), repr(e)[:160])
+                    continue
+                fp_ = 2 * Pp / (mup * zp)
+                wantp = np.concatenate([[0.0], np.cumsum(np.diff(Pp) * (fp_[1:] + fp_[:-1]) / 2)])
+                ev += 1
+                if mp.shape != Pp.shape or not np.allclose(mp, wantp, rtol=1e-12, atol=1e-9 * abs(want[-1])):
+                    bad("stand-alone table transform is not the trapezoid integral of 2p/(mu z) along the rows as listed "
+                        "(a table listed by decreasing pressure must give the same pseudopressure differences, with the first row as reference)",
+                        dict(presentation=how, pressure=[float(x) for x in Pp], viscosity=[float(x) for x in mup], z=[float(x) for x in zp]),
+                        dict(got=[float(x) for x in mp[:5]], expected=[float(x) for x in wantp[:5]]))
+                    break
         i = int(rng.integers(0, n - 1))
         m_sub = np.asarray(pseudopressure(P[i:], mu[i:], z[i:]), float)
         if not np.allclose(m[i:] - m[i], m_sub, rtol=1e-10, atol=1e-9 * abs(m[-1])):
